@@ -2,7 +2,7 @@
 import os
 
 from . import core
-from .rules import stdio, cert, mark, exact, optstore, inval, idx, atomic, own, tokens, idxclass, copy, pair, structfree, buf, div, counter, sentinel, appendinit, verdict, basismap, zerotol, escape, lenclass, djsym, ndet, useb4check, norms
+from .rules import stdio, cert, mark, exact, optstore, inval, idx, atomic, own, tokens, idxclass, copy, pair, structfree, buf, div, counter, sentinel, appendinit, verdict, basismap, zerotol, escape, lenclass, djsym, ndet, useb4check, norms, opencheck, shell, esolver
 from .effects import Effects
 
 FIX = os.path.join(os.path.dirname(os.path.abspath(__file__)), "fixtures")
@@ -246,7 +246,7 @@ PROPS = {
                        "which deletions keep the basis/cache valid; history-dependent lifetime of pricing-norm arrays",
     },
     "C07": {
-        "rules": [lambda prog, tier: idx.run(prog), lambda prog, tier: atomic.run(prog)],
+        "rules": [lambda prog, tier: idx.run(prog), lambda prog, tier: atomic.run(prog), lambda prog, tier: shell.run(prog, shared_eff(prog))],
         "technique": "interprocedural taint of API index/selector arguments + path-sensitive must-analysis of range-guard facts "
                      "(right dimension, right strictness) on clang::CFG with callee preconditions propagated to the API boundary and "
                      "call-site specialisation on constant selectors; write-before-rejection analysis over effect summaries",
@@ -477,6 +477,8 @@ PROPS = {
                   lambda prog, tier: counter.run(prog),
                   lambda prog, tier: useb4check.run(prog),
                   lambda prog, tier: norms.run(prog),
+                  lambda prog, tier: opencheck.run(prog),
+                  lambda prog, tier: shell.run(prog, shared_eff(prog)),
                   lambda prog, tier: ndet.run(prog)],
         "technique": "all-sites census rules over the type-resolved AST/CFG export: bounded-write classification of every buffer-writing "
                      "call, path-sensitive guard analysis of externally supplied indices, loop-local index-space typing of subscripts, "
@@ -498,6 +500,36 @@ PROPS = {
                       "ndet.py (one reason per entry)",
         "not_decided": "temporal safety (use-after-free, double free across calls), uninitialised reads inside work arrays (seed C17/3), "
                        "staleness of pricing norms against the basis (seed C17/2), signed overflow, misaligned access",
+    },
+    "C19": {
+        "rules": [lambda prog, tier: esolver.run_exit(prog),
+                  lambda prog, tier: opencheck.run(prog, scope=lambda f: f.unit.startswith("esolver/") or f.name in ("QSexact_print_sol", "mpq_QSwrite_basis", "mpq_ILLlib_writebasis", "mpq_QSread_prob", "mpq_ILLlib_readbasis")),
+                  lambda prog, tier: esolver.run_statusword(prog),
+                  lambda prog, tier: esolver.run_nzfilter(prog),
+                  lambda prog, tier: shell.run(prog, shared_eff(prog)),
+                  lambda prog, tier: exact.run(prog, {"CERT": {"roots": ["QSexact_print_sol"], "closure": False}, "TESTS": {"roots": ["QSexact_print_sol"], "closure": True}}),
+                  lambda prog, tier: idxclass.run(prog, scope_units=("qsopt_ex/exact.c",), rule="R-IDXCLASS"),
+                  lambda prog, tier: buf.run(prog, scope_units=("esolver/",), floor=2)],
+        "technique": "path-sensitive typestate dataflow over main's CFG for the exit status (error recorded => non-zero return); "
+                     "NULL-test dominance for file handles; table agreement between status constants and the words written; sibling "
+                     "agreement of the four non-zero filters of QSexact_print_sol; lossy-conversion sink census; index-space typing; "
+                     "bounded-write census of esolver",
+        "explanation": "Decides the structural clauses of C19: (R-EXIT) once an error has been recorded in main's rval no later assignment "
+                       "clears it, so a failed run exits non-zero; (R-OPENCHK) the solution file handle, and the handles of the basis / "
+                       "problem readers and writers esolver calls, are tested before use; (R-STATUSWORD) under case QS_LP_X the text "
+                       "written is the word X, in main and in QSexact_print_sol; (R-NZFILTER) the four list sections print entry i iff "
+                       "it is != 0 (equality test on the very array whose element is converted to text - no one-sided filter); "
+                       "(R-BASISSHELL) a failed -B leaves no empty basis record for -b to write; (R-EXACT) the values are written from "
+                       "the exact rationals without conversion through double; (R-IDXCLASS) names and values are paired within one "
+                       "index space; (R-BUF) esolver's fixed buffers are written with bounded calls.",
+        "level_text": "All-paths / all-sites guarantee for these shapes. Three genuine defects found on the pinned tree and fixed: SIGSEGV "
+                      "for an unwritable -O path, SIGSEGV for a malformed -B file combined with -b, exit status 0 without a solve when a "
+                      "parameter is rejected and -B/-b are given. Does not decide the file-type detection by extension (seed C19/1), the "
+                      "bzip2 / gzip line readers' agreement with fgets (seed C19/3), nor that the printed numbers pass the optimality test "
+                      "(C01).",
+        "level_note": "trusted: IntCells value classes for rval; the status-constant table of sa/rules/esolver.py; getter/array pairing in "
+                      "QSexact_print_sol recognised by the QSget_*_array call pattern",
+        "not_decided": "get_ftype's string logic, compressed stream layer semantics, option parsing values, round trip of -b / -B (see C14)",
     },
     "C20": {
         "rules": [lambda prog, tier: stdio.run(prog)],
